@@ -12,11 +12,17 @@ CLAUSE = (
     "(unwrap/expect, indexing and slicing, split_at, copy_from_slice, chunks, Vec::remove/drain/split_off, "
     "Buf::get_*/advance, explicit panic!/unreachable!/assert!/debug_assert!) is either discharged by a sound local "
     "argument (constant operands, fixed-array bounds, width intervals through casts) or matched by an audited entry "
-    "that names the type invariant or the dominating guard it relies on - and that guard is re-checked on every run."
+    "that names the type invariant or the dominating guard it relies on - and that guard is re-checked on every run. "
+    "Extern entry points with a panic precondition are sites too: every leopard_codec::encode/reconstruct call is "
+    "guarded (non-empty row, shares.len() == square width), and nmt-rs proof verification is called only from "
+    "NamespaceProof::verify_range / verify_complete_namespace, which `?`-call validate_structure first (enough "
+    "siblings for popcount(start_idx); left siblings, leaves, right siblings ordered by namespace). Thorough tier: the "
+    "same clause over the MIR of the pinned nmt-rs (whole crate) and leopard-codec (entry functions) reached from "
+    "the same roots, against tables/panic_audit_deps.json."
 )
-NOT_DECIDED = "Panics inside dependencies (prost, nmt-rs, leopard-codec, tendermint) beyond the listed preconditions; memory exhaustion; stack depth."
-ENGINES = "P (panic-site cone with discharge), root-completeness cross-check"
-ASSUMPTIONS = ["dependencies do not panic when their documented preconditions hold", "overflow checks are those of the dev profile (debug assertions on)"]
+NOT_DECIDED = "Panics inside dependencies other than nmt-rs and the entry functions of leopard-codec (prost, tendermint, libp2p; leopard's FFT kernels); memory exhaustion; stack depth."
+ENGINES = "P (panic-site cone with discharge), root-completeness cross-check, G/W (guards in front of extern entry points); thorough: P over the pinned nmt-rs / leopard-codec MIR"
+ASSUMPTIONS = ["dependencies other than nmt-rs / leopard-codec entry functions do not panic when their documented preconditions hold", "leopard-codec's FFT kernels are safe for the shard shapes its entry functions validated", "overflow checks are those of the dev profile (debug assertions on)"]
 ROOTS = [
     T + "extended_header::ExtendedHeader::decode_and_validate", T + "sample::Sample::decode", T + "row::Row::decode",
     T + "row_namespace_data::RowNamespaceData::decode", T + "namespace_data::NamespaceData::from_raw",
